@@ -80,8 +80,8 @@ def eval_expr(f, i, val):
             if a is None or b is None:
                 return None
             return 0
-        if op == "=":
-            return eval_expr(f, c[1], val)
+        if op in ("=", ","):
+            return eval_expr(f, c[1], val)      # (`a, b` has the value of b)
         b = eval_expr(f, c[1], val)
         if a is None or b is None:
             return None
@@ -636,6 +636,10 @@ def walk_vals(f, start_block, val, limit=400, stop_at_loop_back=False, assume=No
                         val.pop(lk, None)
                     else:
                         val[lk] = x
+            elif ne["k"] == "UnaryOperator" and ne.get("op") in ("++", "--") and ne["c"]:
+                lk = key(f, ne["c"][0])
+                if isinstance(val.get(lk), int):
+                    val[lk] = val[lk] + (1 if ne["op"] == "++" else -1)
             elif ne["k"] == "DeclStmt":
                 for d in ne["decls"]:
                     if d.get("init") is not None:
